@@ -5,6 +5,8 @@
    A history is any list of Write / Request / InvStart / InvRead / InvFinish / Tick operations:
    any number of changes (more than one changelog page or not), any spacing in time (inside or
    outside the iterator TTL window), requests and writes between the three moments of a run.
+   A request is a forest of sub-problems; every sub-problem is looked up in / stored into the query
+   cache with the LastCacheInvalidationTime that the top-level request carries (clone()).
    The answer of a request is its provenance (for every datastore read: how long the changelog was
    when the data was read), so "computed from entries populated before the write" is [~ fresh_at]. *)
 From Coq Require Import NArith List Bool Lia.
@@ -15,7 +17,11 @@ Open Scope N_scope.
 (* STALENESS IS BOUNDED.  Hypotheses [cfg_ok]: at most one of {query cache, iterator cache}, jitter
    0, the clock advances across a write, positive TTLs, store-wide marker TTL >= iterator TTL, page
    size >= 1 -- the TTL relation the proof needs ("an iterator entry lives at most iteratorTTL after
-   the instant its data was read") follows from jitter = 0.
+   the instant its data was read") follows from jitter = 0; dispatched sub-problems carry the
+   invalidation time ([c_subinv], as coded).  [hist_ok]: with the query cache on, a request that
+   dispatches sub-problems does not fall between a write and the completion of a run that read
+   after it (requests without dispatch may fall anywhere; subproblem_restamp_refuted shows that the
+   restriction is needed -- a finding).
    If a run performs its changelog read after the write [Write ws] (it was waiting to read in the
    state reached by h1 ++ [Write ws] ++ h2; in particular every run STARTED after the write) and
    that run finishes ([h3] contains no InvFinish, so the InvFinish shown is the one of this run),
@@ -24,6 +30,7 @@ Open Scope N_scope.
 Theorem staleness_bounded :
   forall (c : cfg) (h1 : list op) (ws : list tup) (h2 h3 h4 : list op),
   cfg_ok c = true ->
+  hist_ok c (h1 ++ [Write ws] ++ h2 ++ [InvRead] ++ h3 ++ [InvFinish] ++ h4) init_state = true ->
   let sW := run_ops c (h1 ++ [Write ws]) init_state in
   let sA := run_ops c (h1 ++ [Write ws] ++ h2) init_state in
   (exists x, s_run sA = Some (RPending x)) ->
@@ -31,17 +38,17 @@ Theorem staleness_bounded :
   let s := run_ops c (h1 ++ [Write ws] ++ h2 ++ [InvRead] ++ h3 ++ [InvFinish] ++ h4) init_state in
   firstn (length (s_db sW)) (s_db s) = s_db sW /\
   forall i, (i < length (s_db sW))%nat ->
-  forall keys st jq jis, fresh_at (s_db s) i (out_src (snd (step c s (Request keys st jq jis)))).
+  forall f st jq jis, fresh_at (s_db s) i (out_src (snd (step c s (Request f st jq jis)))).
 Proof. exact staleness_bounded_lemma. Qed.
 Print Assumptions staleness_bounded.
 
 (* The same, stated on the state: [s_done] (ghost) is the length of the longest changelog that a
    COMPLETED run had read; every change below it is reflected by every request. *)
 Theorem staleness_bounded_state :
-  forall (c : cfg) (h : list op), cfg_ok c = true ->
+  forall (c : cfg) (h : list op), cfg_ok c = true -> hist_ok c h init_state = true ->
   let s := run_ops c h init_state in
   forall i, (i < s_done s)%nat ->
-  forall keys st jq jis, fresh_at (s_db s) i (out_src (snd (step c s (Request keys st jq jis)))).
+  forall f st jq jis, fresh_at (s_db s) i (out_src (snd (step c s (Request f st jq jis)))).
 Proof. exact staleness_ghost. Qed.
 Print Assumptions staleness_bounded_state.
 
@@ -59,11 +66,11 @@ Print Assumptions markers_cover_touches.
    as well.  Invalidation never makes up data. *)
 Theorem inv_monotone_safe :
   forall (c : cfg) (s s' : state), more_invalid c s s' ->
-  forall keys st jq jis k n,
-  In (k, n) (out_src (snd (step c s' (Request keys st jq jis)))) ->
+  forall f st jq jis k n,
+  In (k, n) (out_src (snd (step c s' (Request f st jq jis)))) ->
   n = length (s_db s) \/
-  (exists e, i_usable s k e /\ ie_snap e = n) \/
-  (exists e, q_usable c s keys e /\ In (k, n) (qe_src e)).
+  (c_ion c = true /\ exists e, i_usable s k e /\ ie_snap e = n) \/
+  (exists id e, q_usable c s id e /\ In (k, n) (qe_src e)).
 Proof. exact inv_monotone_safe_lemma. Qed.
 Print Assumptions inv_monotone_safe.
 
@@ -76,53 +83,79 @@ Proof. exact controller_only_invalidates_lemma. Qed.
 Print Assumptions controller_only_invalidates.
 
 (* Hence invalidation never causes a wrong answer: if every usable cache entry holds what an
-   uncached read returns, then after any controller operation every answer is computed from exactly
-   the data an uncached evaluation reads. *)
+   uncached read returns, then after any controller operation every part of every answer is what an
+   uncached read returns now. *)
 Theorem invalidation_never_wrong :
   forall (c : cfg) (h : list op) (o : op), 0 < c_qttl c -> controller_op o = true ->
   let s := run_ops c h init_state in
   cache_consistent c s ->
   let s' := fst (step c s o) in
-  forall keys st jq jis,
-  answer_views (s_db s') (out_src (snd (step c s' (Request keys st jq jis)))) = uncached_views (s_db s') keys.
+  forall f st jq jis k n,
+  In (k, n) (out_src (snd (step c s' (Request f st jq jis)))) ->
+  view (s_db s') k n = view (s_db s') k (length (s_db s')).
 Proof. exact invalidation_never_wrong_lemma. Qed.
 Print Assumptions invalidation_never_wrong.
 
-(* OUTSIDE THE HYPOTHESES.  [refutes c h1 ws h2 h3 h4 i keys]: the history has exactly the shape of
-   staleness_bounded and the final request is NOT fresh for change i.
+(* OUTSIDE THE HYPOTHESES.  [refutes c h1 ws h2 h3 h4 i f]: the history [w_hist h1 ws h2 h3 h4] has
+   exactly the shape of staleness_bounded and the final request f is NOT fresh for change i.
 
    Both caches on: the documented caveat of docs/caching.md (excluded by the property). *)
 Theorem both_caches_refuted :
-  exists c h1 ws h2 h3 h4 i keys,
-    c_qon c = true /\ c_ion c = true /\ c_jit c = 0 /\ cfg_rest c = true /\ refutes c h1 ws h2 h3 h4 i keys.
+  exists c h1 ws h2 h3 h4 i f,
+    c_qon c = true /\ c_ion c = true /\ c_jit c = 0 /\ cfg_rest c = true /\ c_subinv c = true /\
+    hist_ok c (w_hist h1 ws h2 h3 h4) init_state = true /\ refutes c h1 ws h2 h3 h4 i f.
 Proof. exact both_caches_refuted_lemma. Qed.
 Print Assumptions both_caches_refuted.
 
 (* TTL jitter, iterator cache only: an entry outlives the window the controller looks at
    (known finding ttl_jitter_iterator_outlives_window). *)
 Theorem staleness_jitter_refuted :
-  exists c h1 ws h2 h3 h4 i keys,
-    c_qon c = false /\ c_ion c = true /\ c_jit c = 100 /\ cfg_rest c = true /\ refutes c h1 ws h2 h3 h4 i keys.
+  exists c h1 ws h2 h3 h4 i f,
+    c_qon c = false /\ c_ion c = true /\ c_jit c = 100 /\ cfg_rest c = true /\ c_subinv c = true /\
+    hist_ok c (w_hist h1 ws h2 h3 h4) init_state = true /\ refutes c h1 ws h2 h3 h4 i f.
 Proof. exact staleness_jitter_iter_refuted_lemma. Qed.
 Print Assumptions staleness_jitter_refuted.
 
 (* TTL jitter, query cache only: an entry outlives the ChangelogCacheEntry it is compared with
    (known finding ttl_jitter_query_outlives_changelog). *)
 Theorem staleness_jitter_query_refuted :
-  exists c h1 ws h2 h3 h4 i keys,
-    c_qon c = true /\ c_ion c = false /\ c_jit c = 100 /\ cfg_rest c = true /\ refutes c h1 ws h2 h3 h4 i keys.
+  exists c h1 ws h2 h3 h4 i f,
+    c_qon c = true /\ c_ion c = false /\ c_jit c = 100 /\ cfg_rest c = true /\ c_subinv c = true /\
+    hist_ok c (w_hist h1 ws h2 h3 h4) init_state = true /\ refutes c h1 ws h2 h3 h4 i f.
 Proof. exact staleness_jitter_query_refuted_lemma. Qed.
 Print Assumptions staleness_jitter_query_refuted.
 
 (* The clock hypothesis is needed: if a write can carry the timestamp of a read that preceded it,
    the marker comparison [Before] lets the stale entry through (not a finding: nanosecond clock). *)
 Theorem staleness_coarse_clock_refuted :
-  exists c h1 ws h2 h3 h4 i keys,
+  exists c h1 ws h2 h3 h4 i f,
     c_wtick c = 0 /\
-    cfg_ok (mkCfg (c_qon c) (c_ion c) (c_qttl c) (c_ittl c) (c_interval c) (c_full c) (c_page c) (c_jit c) 1) = true /\
-    refutes c h1 ws h2 h3 h4 i keys.
+    cfg_ok (mkCfg (c_qon c) (c_ion c) (c_qttl c) (c_ittl c) (c_interval c) (c_full c) (c_page c) (c_jit c) 1 (c_subinv c)) = true /\
+    hist_ok c (w_hist h1 ws h2 h3 h4) init_state = true /\ refutes c h1 ws h2 h3 h4 i f.
 Proof. exact staleness_coarse_clock_refuted_lemma. Qed.
 Print Assumptions staleness_coarse_clock_refuted.
+
+(* AS CODED, query cache only, no jitter (cfg_ok holds): a request for another parent of a cached
+   sub-problem, made after the write and before the run, stores the parent's answer -- stamped after
+   the write -- computed from the sub-problem's entry from before the write; the run invalidates the
+   sub-problem but not the parent (known finding subproblem_restamped_after_write).  hist_ok is the
+   only hypothesis of staleness_bounded that fails. *)
+Theorem subproblem_restamp_refuted :
+  exists c h1 ws h2 h3 h4 i f,
+    cfg_ok c = true /\ hist_ok c (w_hist h1 ws h2 h3 h4) init_state = false /\ refutes c h1 ws h2 h3 h4 i f.
+Proof. exact subproblem_restamp_refuted_lemma. Qed.
+Print Assumptions subproblem_restamp_refuted.
+
+(* The propagation of LastCacheInvalidationTime to dispatched sub-problems is needed: without it
+   (c_subinv = false, everything else as in cfg_ok, admissible history) the recomputed parent is
+   answered from the sub-problem's stale entry. *)
+Theorem subproblem_time_dropped_refuted :
+  exists c h1 ws h2 h3 h4 i f,
+    c_subinv c = false /\
+    cfg_ok (mkCfg (c_qon c) (c_ion c) (c_qttl c) (c_ittl c) (c_interval c) (c_full c) (c_page c) (c_jit c) (c_wtick c) true) = true /\
+    hist_ok c (w_hist h1 ws h2 h3 h4) init_state = true /\ refutes c h1 ws h2 h3 h4 i f.
+Proof. exact subproblem_time_dropped_refuted_lemma. Qed.
+Print Assumptions subproblem_time_dropped_refuted.
 
 (* ------------------------------------------------------------------------------------------ *)
 (* Non-vacuity                                                                                 *)
@@ -139,44 +172,59 @@ Proof. split; reflexivity. Qed.
    and another write fall between the run's read and its finish: the run decides "full" and the
    last request re-reads the key (changelog length 63, the entry populated at length 1 is not used) *)
 Example staleness_bounded_page_overflow :
-  let h1 := [Write [w_t 1]; Tick 1; Request [w_k1] true 0 []; Tick 1] in
+  let h1 := [Write [w_t 1]; Tick 1; Request w_q1 true 0 []; Tick 1] in
   let h2 := map x_other (seq 10 60) ++ [Tick 1; InvStart] in
-  let h3 := [Request [w_k1] true 0 []; x_other 99] in
+  let h3 := [Request w_q1 true 0 []; x_other 99] in
   cfg_ok x_cfg_i = true /\
+  hist_ok x_cfg_i (w_hist h1 [w_t 2] h2 h3 [Tick 1]) init_state = true /\
   (exists x, s_run (run_ops x_cfg_i (h1 ++ [Write [w_t 2]] ++ h2) init_state) = Some (RPending x)) /\
   no_finish h3 = true /\
   snd (step x_cfg_i (run_ops x_cfg_i (h1 ++ [Write [w_t 2]] ++ h2 ++ [InvRead] ++ h3) init_state) InvFinish) = OFin DFull /\
-  snd (step x_cfg_i (run_ops x_cfg_i (h1 ++ [Write [w_t 2]] ++ h2 ++ [InvRead] ++ h3 ++ [InvFinish] ++ [Tick 1]) init_state)
-            (Request [w_k1] true 0 [])) = OAns [(w_k1, 63%nat)] false [false] false false.
+  snd (step x_cfg_i (run_ops x_cfg_i (w_hist h1 [w_t 2] h2 h3 [Tick 1]) init_state)
+            (Request w_q1 true 0 [])) = OAns [(w_k1, 63%nat)] [false] [false] false false.
 Proof. repeat split; try (eexists; vm_compute; reflexivity); vm_compute; reflexivity. Qed.
 
 (* changes straddling the TTL window: the old change is outside (its entries have expired), the
    recent one gets the two entity markers: "partial" *)
 Example staleness_bounded_window_straddle :
-  let h := [Write [w_t 1]; Tick 1; Request [w_k1; w_k2] true 0 []; Tick 400; Write [mkTup 7 1 2 1 false]; Tick 1;
+  let h := [Write [w_t 1]; Tick 1; Request w_q12 true 0 []; Tick 400; Write [mkTup 7 1 2 1 false]; Tick 1;
             InvStart; InvRead] in
   snd (step x_cfg_i (run_ops x_cfg_i h init_state) InvFinish) = OFin (DPartial [MOR 1 2 1; MUOT 7 1]) /\
-  snd (step x_cfg_i (run_ops x_cfg_i (h ++ [InvFinish]) init_state) (Request [w_k1; w_k2] true 0 []))
-  = OAns [(w_k1, 2%nat); (w_k2, 2%nat)] false [false; false] false false.
+  snd (step x_cfg_i (run_ops x_cfg_i (h ++ [InvFinish]) init_state) (Request w_q12 true 0 []))
+  = OAns [(w_k1, 2%nat); (w_k2, 2%nat)] [false] [false; false] false false.
 Proof. split; vm_compute; reflexivity. Qed.
 
-(* query cache only: the cached answer is dropped after the run *)
+(* query cache only, a request without dispatch between the write and the run (admissible): the
+   cached answer is served before the run and dropped after it *)
 Example staleness_bounded_query :
-  let h := [Write [w_t 1]; Tick 1; Request [w_k1] true 0 []; Tick 1; Write [w_t 2]; Tick 1] in
-  cfg_ok x_cfg_q = true /\
-  snd (step x_cfg_q (run_ops x_cfg_q h init_state) (Request [w_k1] true 0 [])) = OAns [(w_k1, 1%nat)] true [] true false /\
-  snd (step x_cfg_q (run_ops x_cfg_q (h ++ [InvRead; InvFinish]) init_state) (Request [w_k1] true 0 []))
-  = OAns [(w_k1, 2%nat)] false [false] false false.
+  let h := [Write [w_t 1]; Tick 1; Request w_q1 true 0 []; Tick 1; Write [w_t 2]; Tick 1; Request w_q1 true 0 []] in
+  cfg_ok x_cfg_q = true /\ hist_ok x_cfg_q (h ++ [InvRead; InvFinish]) init_state = true /\
+  snd (step x_cfg_q (run_ops x_cfg_q h init_state) (Request w_q1 true 0 [])) = OAns [(w_k1, 1%nat)] [true] [] true false /\
+  snd (step x_cfg_q (run_ops x_cfg_q (h ++ [InvRead; InvFinish]) init_state) (Request w_q1 true 0 []))
+  = OAns [(w_k1, 2%nat)] [false] [false] false false.
+Proof. repeat split; vm_compute; reflexivity. Qed.
+
+(* query cache only, sub-problems: in an admissible history (both requests in covered states) the run
+   invalidates the parent AND, through the propagated time, the dispatched sub-problem: both are
+   looked up, both miss, the read is repeated at changelog length 2 *)
+Example staleness_bounded_subproblems :
+  let h := [Write [w_t 1]; Tick 1; InvStart; InvRead; InvFinish; Tick 1; Request w_p1 true 0 []; Tick 1;
+            Write [w_t 2]; Tick 1; InvStart; InvRead; InvFinish; Tick 1] in
+  cfg_ok x_cfg_q = true /\ hist_ok x_cfg_q h init_state = true /\
+  snd (step x_cfg_q (run_ops x_cfg_q h init_state) (Request w_p1 true 0 []))
+  = OAns [(w_k1, 2%nat)] [false; false] [false] false false /\
+  snd (step x_cfg_q (run_ops x_cfg_q h init_state) (Request w_p2 true 0 []))
+  = OAns [(w_k1, 2%nat)] [false; false] [false] false false.
 Proof. repeat split; vm_compute; reflexivity. Qed.
 
 (* more_invalid / cache_consistent are satisfiable by a state with a usable entry, and the
    conclusion of invalidation_never_wrong is about a non-empty answer *)
 Example invalidation_never_wrong_nonvacuous :
-  let h := [Write [w_t 1]; Tick 1; Request [w_k1] true 0 []; Tick 1; InvRead] in
+  let h := [Write [w_t 1]; Tick 1; Request w_q1 true 0 []; Tick 1; InvRead] in
   let s := run_ops x_cfg_i h init_state in
   cache_consistent x_cfg_i s /\ (exists e, i_usable s w_k1 e) /\
   s_mk (fst (step x_cfg_i s InvFinish)) <> s_mk s /\
-  uncached_views (s_db s) [w_k1] = [[mkCh 1 (w_t 1)]].
+  out_src (snd (step x_cfg_i (fst (step x_cfg_i s InvFinish)) (Request w_q1 true 0 []))) = [(w_k1, 1%nat)].
 Proof.
   cbv zeta. split; [|split; [|split]].
   - split.
@@ -184,7 +232,7 @@ Proof.
       destruct o as [|[| |]]; try discriminate; destruct t as [|[| |]]; try discriminate;
       destruct i as [|[| |]]; try discriminate; destruct r as [|[| |]]; try discriminate.
       injection G as <-. vm_compute. reflexivity.
-    + intros ks e [G _]. vm_compute in G. discriminate.
+    + intros id e [Q _]. vm_compute in Q. discriminate.
   - eexists. vm_compute. repeat split.
   - vm_compute. discriminate.
   - vm_compute. reflexivity.
